@@ -163,9 +163,32 @@ func (c *Ctx) collectFns() {
 	buildSites(scan)
 	gAddrTaken = map[*ssa.Function]bool{}
 	gInvoked = map[string]bool{}
+	gGlobalStores = map[*ssa.Global][]*ssa.Store{}
+	gGlobalEscapes = map[*ssa.Global]bool{}
 	for _, f := range scan {
 		for _, b := range f.Blocks {
 			for _, i := range b.Instrs {
+				if st, ok := i.(*ssa.Store); ok {
+					if g, ok := st.Addr.(*ssa.Global); ok {
+						gGlobalStores[g] = append(gGlobalStores[g], st)
+					}
+				}
+				for _, op := range i.Operands(nil) {
+					if op == nil || *op == nil {
+						continue
+					}
+					if g, ok := (*op).(*ssa.Global); ok {
+						switch x := i.(type) {
+						case *ssa.UnOp:
+						case *ssa.Store:
+							if x.Addr != g {
+								gGlobalEscapes[g] = true
+							}
+						default:
+							gGlobalEscapes[g] = true // address taken: field/element address, passed on, captured
+						}
+					}
+				}
 				cc := callCommon(i)
 				if cc != nil && cc.IsInvoke() {
 					gInvoked[cc.Method.Name()] = true
